@@ -17,7 +17,15 @@ import (
 )
 
 func c07Specs(fc bool) []*RPCSpec {
-	specs := phaseSpecs(fc)
+	// (without the two revision-zero phases that park a receive loop on an unread stream: behind a
+	// parked loop no notice is ever "delivered", which is the premise of the handler-side clause;
+	// head-of-line blocking is what revision zero is)
+	var specs []*RPCSpec
+	for _, s := range phaseSpecs(fc) {
+		if s.ID != "cloop" && s.ID != "sloop" {
+			specs = append(specs, s)
+		}
+	}
 	trl := metadata.MD{"t": {"1", "2"}}
 	specs = append(specs,
 		// completes normally unless cancelled: three messages and trailers
